@@ -49,3 +49,6 @@ C16_html_offsets_missing_node_metadata = _sig('C16/html-offsets-missing-node-met
 C16_html_capture_bogus_comment_slice_bounds = _sig('C16/html-capture-bogus-comment-slice-bounds')
 C16_html_capture_abutting_attributes = _sig('C16/html-capture-abutting-attributes')
 C16_html_capture_nul_in_text = _sig('C16/html-capture-nul-in-text')
+C16_html_capture_repeated_body_tag = _sig('C16/html-capture-repeated-body-tag')
+C16_html_capture_reparented_metadata = _sig('C16/html-capture-reparented-metadata')
+C16_html_capture_nonplain_markup_tree_differs = _sig('C16/html-capture-nonplain-markup-tree-differs')
